@@ -198,6 +198,14 @@ def run_dot_root(run, P, units=('coap_uri.c',)):
                         a = strip(t['a'][i])
                         if isinstance(a, dict) and a.get('k') == 'var' and a.get('pi') is None:
                             pos[ap(a)] = (a['n'], fn, ev['loc'])
+                        elif isinstance(a, dict) and a.get('k') == 'var' and a.get('pi') is not None and (a.get('t') or '').count('*') >= 2:
+                            # the chain PARAMETER itself: the trimming starts at the head of what the caller supplied
+                            n += 1
+                            run.instance('R-URI-CLASS', '%s: the chain parameter %s itself is handed to %s()' % (f['name'], a['n'], fn))
+                            run.oblige('R-URI-CLASS', False, '%s:%s:trim-position-behind-callers-chain' % (f['name'], a['n']))
+                            run.violation('R-URI-CLASS', f['name'], ev['loc'], 'dot-dot-can-remove-callers-option:%s' % a['n'],
+                                          '%s() resolves ".." by letting %s() delete the last element starting from the chain parameter %s itself, not from the end of what the caller '
+                                          'supplied: a ".." at the root of the path deletes an option that was in the chain before (Uri-Port after Uri-Host)' % (f['name'], fn, a['n']), [])
         if not pos:
             continue
         loops = natural_loops(f)
